@@ -22,6 +22,19 @@ fn main() {
     if args.is_empty() {
         usage();
     }
+    if args[0] == "fuzz-seeds" {
+        // (re)generate /verif/fuzz/corpus-seed from real serialisations
+        match fvcore::fuzzglue::write_seed_corpus() {
+            Ok(n) => {
+                println!("wrote {n} seed inputs");
+                std::process::exit(0)
+            }
+            Err(e) => {
+                eprintln!("cannot write seed corpus: {e}");
+                std::process::exit(2)
+            }
+        }
+    }
     if args[0] == "replay" {
         let Some(path) = args.get(1) else { usage() };
         std::process::exit(replay(path));
